@@ -104,7 +104,7 @@ def width_of(v):
     if isinstance(v, int) and not isinstance(v, bool) and v >= 0: return max(1, v.bit_length())
     return None
 def is_none_z3(v): return v.isnone if isinstance(v, SOpt) else z3.BoolVal(v is None)
-def int_nochk(v): return v.val if isinstance(v, SOpt) else to_int(v)
+def int_nochk(v): return v.val if isinstance(v, SOpt) else z3.IntVal(0) if v is None else to_int(v)
 
 # ----------------------------------------------------------------------------- state
 class State:
@@ -167,7 +167,7 @@ class Engine:
         s.reveal_defs = []      # [(opaque FuncDecl, transparent body over z3.Var)] -- "reveal" by substitution
         s.refute_defs = []      # additional substitutions for the bounded refutation pass (fully transparent faces)
         s.prelude_methods = {}  # method name -> fn(eng, st, base, args, ctx, node) for SBytes/SStr receivers
-        s.py_calls = {}         # dotted name of an external callable -> fn(eng, st, args, kw, ctx, node)
+        s.py_calls = {"typing.cast": lambda e, st, args, kw, ctx, node: [(st, args[1])]}         # dotted name of an external callable -> fn(eng, st, args, kw, ctx, node)
         s.cuts = {}             # (qualname, selector) -> fn(st, eng) -> z3 Bool, asserted+assumed after the statement
         s.exc_parents = dict(DEFAULT_EXC_PARENTS)
         s.len_vars = []         # z3 Int constants that are lengths of symbolic sequences (bounded in the refutation pass)
